@@ -585,17 +585,17 @@ func capturedValue(v ssa.Value, chain []*ssa.Call, sch *ssa.Function) (ssa.Value
 					if cell.Parent() == sch {
 						return cell, true
 					}
-					// captured in a helper that schedule calls to start the generation and that hands back the test as a
-					// closure (current := t.newGeneration()): as good as schedule's own local
-					if scheduleCalls(sch, cell.Parent()) {
-						return cell, true
-					}
 					// the spill of a parameter of the arming helper (captured by the callback): the parameter
 					if sts := storesTo(cell); len(sts) == 1 && len(armChain) > 0 {
 						if prm, ok := sts[0].Val.(*ssa.Parameter); ok && prm.Parent() == cell.Parent() {
 							v = prm
 							continue
 						}
+					}
+					// captured in a helper that schedule calls to start the generation and that hands back the test as a
+					// closure (current := t.newGeneration()): as good as schedule's own local
+					if scheduleCalls(sch, cell.Parent()) {
+						return cell, true
 					}
 					return nil, false
 				}
